@@ -41,10 +41,31 @@ def scaled(cname, th, c):
     return t
 
 
-def fit_params(cname, x, start=None):
-    obj = D.get_class(cname)(**(start or {}))
+def fit_params(cname, x, start=None, fixed=None):
+    obj = D.get_class(cname)(**dict(start or {}, **(fixed or {})))
     obj.fit(x)
     return {k: float(v) for k, v in obj.parameters.items()}
+
+
+def oracle_fixed(case):
+    """a subset of the parameters fixed AT THE GENERATING VALUES: the generating parameters are feasible, so the constrained fit
+    (at most two free parameters) must not have lower likelihood than they have"""
+    cname, th, n, seed = case["cls"], case["theta"], case["n"], case["seed"]
+    x = np.asarray(D.get_class(cname)(**th).draw_sample(n, random_state=seed), dtype=float)
+    fx = {"f_" + p: th[p] for p in case["fixed"]}
+    sig = {"cls": cname, "fixed": "+".join(sorted(case["fixed"]))}
+    try:
+        fit = fit_params(cname, x, None, fx)
+    except Exception as e:  # noqa
+        return (dict(sig, clause="fit-exception", exc=type(e).__name__), "fit with %r raised %s: %s" % (fx, type(e).__name__, str(e)[:100]))
+    if not all(np.isfinite(v) for v in fit.values()):
+        return (dict(sig, clause="nonfinite"), "fitted parameters not finite: %r" % fit)
+    ll_fit, ll_true = loglik(cname, fit, x), loglik(cname, th, x)
+    if ll_fit < ll_true - (1e-3 + 1e-6 * abs(ll_fit)):
+        return (dict(sig, clause="loses-vs-true"),
+                "%s(%s).fit(x): log-likelihood %.6f at the fitted parameters %r < %.6f at the generating parameters %r (which satisfy the fixed values)"
+                % (cname, ", ".join("%s=%r" % kv for kv in fx.items()), ll_fit, fit, ll_true, th))
+    return None
 
 
 def oracle(case, notes=None):
@@ -131,6 +152,11 @@ def scipy_oracle(fam, fixed, th, n, seed, c):
 
 
 def replay(ctx, case):
+    if isinstance(case.get("fixed"), list) and "cls" in case:
+        o = oracle_fixed(case)
+        if o:
+            print("  ", o[1])
+        return o is not None
     if case.get("scipydist"):
         o = scipy_oracle(case["family"], case["fixed"], case["theta"], case["n"], case["seed"], case["c"])
         if o:
@@ -181,6 +207,28 @@ def run(ctx):
             found += 1
             if found >= 6:
                 break
+    # every non-empty proper subset of the parameters fixed at the generating values
+    import itertools
+    fcases = []
+    for cname in D.FAMS:
+        if cname == "LogNormalNormFitDistribution":
+            continue
+        ps = D.FAMS[cname]["params"]
+        for k in range(1, len(ps)):
+            for sub in itertools.combinations(ps, k):
+                for rep in range(ctx.n(1, 4)):
+                    fcases.append({"cls": cname, "theta": regular_params(rng, cname), "fixed": list(sub), "n": rng.choice([100, 300, 1000]), "seed": rng.randrange(10 ** 6)})
+    for c in fcases:
+        ctx.count((c["cls"], tuple(c["fixed"]), c["seed"]), True)
+        try:
+            o = oracle_fixed(c)
+        except Exception as e:  # noqa
+            o = ({"cls": c["cls"], "clause": "exception", "exc": type(e).__name__}, "%s: %s" % (type(e).__name__, e))
+        if o is not None and ctx.violation(o[0], o[1], c):
+            found += 1
+            if found >= 8:
+                break
+    ctx.notes["fixed_subset_cases"] = len(fcases)
     for fam, fixed, th in SCIPY_FAMS:
         for rep in range(ctx.n(1, 4)):
             case = {"scipydist": True, "family": fam, "fixed": fixed, "theta": th, "n": rng.choice([200, 1000]), "seed": rng.randrange(10 ** 6), "c": rng.choice([0.5, 2.0])}
